@@ -392,6 +392,9 @@ func (u *ModelUpdates) addMutateOperation(dbModel model.DatabaseModel, table, uu
 		if !isFinite(newValue) {
 			return &ovsdb.RangeError{}
 		}
+		if err := checkColumnConstraints(mutation.Column, column, newValue); err != nil {
+			return err
+		}
 		if err := newInfo.SetField(mutation.Column, newValue); err != nil {
 			return err
 		}
@@ -589,4 +592,37 @@ func intMutationOverflows(current interface{}, mutator ovsdb.Mutator, value inte
 		}
 	}
 	return false
+}
+
+// checkColumnConstraints checks the number of elements and the integer range
+// that the type of a column allows for a mutated value (RFC 7047 5.2.4,
+// "constraint violation")
+func checkColumnConstraints(name string, column *ovsdb.ColumnSchema, value interface{}) error {
+	if column.TypeObj == nil {
+		return nil
+	}
+	v := reflect.ValueOf(value)
+	var ints []int
+	switch v.Kind() {
+	case reflect.Slice, reflect.Map:
+		n := v.Len()
+		if max := column.TypeObj.Max(); n < column.TypeObj.Min() || (max != ovsdb.Unlimited && n > max) {
+			return ovsdb.NewConstraintViolation(fmt.Sprintf("column %q would have %d values", name, n))
+		}
+		if is, ok := value.([]int); ok {
+			ints = is
+		}
+	case reflect.Int:
+		ints = []int{value.(int)}
+	}
+	if key := column.TypeObj.Key; key != nil && key.Type == ovsdb.TypeInteger {
+		min, _ := key.MinInteger()
+		max, _ := key.MaxInteger()
+		for _, i := range ints {
+			if i < min || i > max {
+				return ovsdb.NewConstraintViolation(fmt.Sprintf("column %q: %d is not in the range %d..%d", name, i, min, max))
+			}
+		}
+	}
+	return nil
 }
